@@ -213,6 +213,13 @@ mod inner {
     /// [`Collect`]: crate::collect::Collect
     /// [cache-docs]: crate::callsite#rebuilding-cached-interest
     pub fn rebuild_interest_cache() {
+        #[cfg(feature = "verif-hooks")]
+        crate::__verif::wait_until("callsite.dispatchers.write(rebuild_interest_cache)", &|| {
+            !matches!(
+                REGISTRY.dispatchers.try_write(),
+                Err(std::sync::TryLockError::WouldBlock)
+            )
+        });
         let mut dispatchers = REGISTRY.dispatchers.write().unwrap();
         let callsites = &REGISTRY.callsites;
         rebuild_interest(callsites, &mut dispatchers);
@@ -229,12 +236,26 @@ mod inner {
     /// [`Callsite`]: crate::callsite::Callsite
     /// [reg-docs]: crate::callsite#registering-callsites
     pub fn register(registration: &'static Registration) {
+        #[cfg(feature = "verif-hooks")]
+        crate::__verif::wait_until("callsite.dispatchers.read(register)", &|| {
+            !matches!(
+                REGISTRY.dispatchers.try_read(),
+                Err(std::sync::TryLockError::WouldBlock)
+            )
+        });
         let dispatchers = REGISTRY.dispatchers.read().unwrap();
         rebuild_callsite_interest(&dispatchers, registration.callsite);
         REGISTRY.callsites.push(registration);
     }
 
     pub(crate) fn register_dispatch(dispatch: &Dispatch) {
+        #[cfg(feature = "verif-hooks")]
+        crate::__verif::wait_until("callsite.dispatchers.write(register_dispatch)", &|| {
+            !matches!(
+                REGISTRY.dispatchers.try_write(),
+                Err(std::sync::TryLockError::WouldBlock)
+            )
+        });
         let mut dispatchers = REGISTRY.dispatchers.write().unwrap();
         let callsites = &REGISTRY.callsites;
 
@@ -426,19 +447,27 @@ impl<T> LinkedList<T> {
 
 impl LinkedList {
     fn for_each(&self, mut f: impl FnMut(&'static Registration)) {
+        #[cfg(feature = "verif-hooks")]
+        crate::__verif::point("callsite.list.head.load(for_each)");
         let mut head = self.head.load(Ordering::Acquire);
 
         while let Some(reg) = unsafe { head.as_ref() } {
             f(reg);
 
+            #[cfg(feature = "verif-hooks")]
+            crate::__verif::point("callsite.list.next.load");
             head = reg.next.load(Ordering::Acquire);
         }
     }
 
     fn push(&self, registration: &'static Registration) {
+        #[cfg(feature = "verif-hooks")]
+        crate::__verif::point("callsite.list.head.load(push)");
         let mut head = self.head.load(Ordering::Acquire);
 
         loop {
+            #[cfg(feature = "verif-hooks")]
+            crate::__verif::point("callsite.list.next.store");
             registration.next.store(head, Ordering::Release);
 
             assert_ne!(
@@ -449,6 +478,8 @@ impl LinkedList {
                 `tracing-core::callsite::register` once per `Callsite`."
             );
 
+            #[cfg(feature = "verif-hooks")]
+            crate::__verif::point("callsite.list.head.cas");
             match self.head.compare_exchange(
                 head,
                 registration as *const _ as *mut _,
